@@ -107,6 +107,13 @@ CHECKS["C20"] = dict(
     ref="4/C20",
 )
 
+CHECKS["C08"] = dict(
+    technique="reference-model oracle (fold over an abstract chain description) against real renders in four modes (sync/async x plain/caching dict loader), bounded-exhaustive enumeration of chains plus structural-defect injection and cyclic graphs under a logical step budget",
+    text="Exploration with an exhaustive family: all 40 494 chains of depth <= 3 over 2 block names where each template independently omits/defines/defines+super/defines required/nests each block (thorough: all depth-4 chains up to renaming, 6.7e5), plus control-flow-wrapped blocks, 11 structural defects injected at every chain position, all extends graphs on <= 4 templates from every entry (cycles must end in TemplateInheritanceError within 250 000 steps), chains entered through include/render, and seeded deeper chains; ~2.5e5 real renders in quick.",
+    note="Trusted: the reference model (vf/c08_inherit.py). Blocks inside merely included templates (no extends) are not judged: the statement does not say whether they participate in the including chain (counted as dont_care_standalone_include_blocks).",
+    ref="4/C08",
+)
+
 NOT_YET = {}
 
 def main():
